@@ -181,7 +181,7 @@ void h_raw_unregister(void)
 	}
 	iv_event_raw_unregister(&v_er);
 	__CPROVER_assert(g_fd_unreg == 1 && v_state.numobjs == verif_in.numobjs - 1, "[C01,C07] the descriptor leaves the loop");
-	__CPROVER_assert(k_open_count() == 0 && k_bad_close == 0, "[C18] exactly the descriptors that were opened are closed, each once");
+	__CPROVER_assert(k_open_count() == 0 && k_bad_close == 0, "[C18,C15,C08,C09] exactly the descriptors that were opened are closed, each once, with eventfd and with the pipe transport (a second close can hit a descriptor number another thread has just been given)");
 	CANARY();
 }
 
